@@ -440,29 +440,41 @@ def slack(ops):
 # ----------------------------------------------------------------------------------------------
 
 class Source:
-    """instrumented iterable: counts the elements handed out; raises `err` after the last one"""
+    """instrumented re-iterable: counts the elements handed out (over all its iterators);
+    every iterator raises `err` after the last element"""
 
     def __init__(self, vals, err):
         self.vals = vals
         self.err = err
         self.pulled = 0
         self.iters = 0
-        self.ended = False
 
     def __iter__(self):
         self.iters += 1
+        return _SourceIter(self)
+
+
+class _SourceIter:
+    def __init__(self, src):
+        self.src = src
+        self.pos = 0
+        self.ended = False
+
+    def __iter__(self):
         return self
 
     def __next__(self):
+        src = self.src
         if self.ended:
             raise StopIteration
-        if self.pulled < len(self.vals):
-            v = self.vals[self.pulled]
-            self.pulled += 1
+        if self.pos < len(src.vals):
+            v = src.vals[self.pos]
+            self.pos += 1
+            src.pulled += 1
             return v
         self.ended = True
-        if self.err is not None:
-            raise TAGS[self.err[0]](self.err[1])
+        if src.err is not None:
+            raise TAGS[src.err[0]](src.err[1])
         raise StopIteration
 
 
@@ -523,6 +535,22 @@ def _one_run(case, k, mode):
     out = []
     n = 0
     end = 'done'
+    if k == 'again':
+        # consume the same Stream object a second time: a Stream over a re-iterable source is
+        # re-iterable (every `__iter__` starts fresh generators), so the second pass must give
+        # the same answer as the first
+        try:
+            for _ in stream:
+                pass
+        except Exception:   # noqa
+            pass
+        k = None
+        first = src.pulled
+        again = True
+        _S.random = ScriptedRandom(*_scripts(case['ops']))    # the script starts over, too
+    else:
+        first = 0
+        again = False
     try:
         if k is None:
             if mode == 'collect':
@@ -560,7 +588,9 @@ def _one_run(case, k, mode):
             out = None          # the values delivered before the exception are not observable
         n = len(out) if out is not None else -1
         pulled_at_k = src.pulled
-    pulled = src.pulled if k is None else pulled_at_k
+    pulled = (src.pulled - first) if k is None else pulled_at_k
+    if again:
+        k = 'again'
     return dict(vals=None if out is None else '[' + ','.join(show(v) for v in out) + ']', n=n, end=end,
                 pulled=pulled, built=built, prints=len(prints), k=k, mode=mode)
 
@@ -571,7 +601,7 @@ def run_case(case):
     def body():
         idx, perm = _scripts(case['ops'])
         runs = []
-        for k in [None] + list(case['ks']):
+        for k in [None] + list(case['ks']) + (['again'] if case.get('again') else []):
             _S.random = ScriptedRandom(idx, perm)
             try:
                 runs.append(_one_run(case, k, case['consume']))
@@ -602,7 +632,9 @@ def run_case(case):
     sl = slack(case['ops'])
     for r in runs:
         k = r['k']
-        what = 'full' if k is None else f'take {k}'
+        what = 'full' if k is None else ('again' if k == 'again' else f'take {k}')
+        if k == 'again':
+            k = None
         if r['built'] != (0, 0):
             mon.append(dict(prop='C03', rule='lazy-build', detail=f'{what}: building pulled {r["built"]} (pulled, iter calls)'))
         if k is None:
@@ -612,6 +644,10 @@ def run_case(case):
             want = exp[:k]
             wend = 'more' if k <= len(exp) else ('done' if eerr is None else show_err(eerr))
         wvals = '[' + ','.join(show(v) for v in want) + ']'
+        if what == 'again' and (r['vals'] not in (None, wvals) or r['end'] != wend):
+            mon.append(dict(prop='C03', rule='reiterate',
+                            detail=f'second consumption of the same Stream: got {r["vals"]} {r["end"]} expected {wvals} {wend}'))
+            continue
         if r['vals'] is not None and r['vals'] != wvals:
             mon.append(dict(prop='C03', rule='output', detail=f'{what}: got {r["vals"]} expected {wvals}'))
         elif r['vals'] is None and r['end'] == 'done' and r['n'] != len(want):
@@ -662,7 +698,7 @@ def model_lines(cid, case, res):
              show_err(tuple(case['err']) if case['err'] is not None else None)]
     lines += [op_line(op) for op in case['ops']]
     for r in res.get('runs', []):
-        if r['k'] is None:
+        if r['k'] is None or r['k'] == 'again':
             # drain() / a failed collect(): the values are not observable (`-`); the monitor checks the count
             lines.append(f'obs full {r["vals"] or "-"} {r["end"]} {r["pulled"]}')
         else:
@@ -840,7 +876,7 @@ def gen_case(rng, tier, boundary=False):
     if partial:
         ks = sorted({rng.choice([0, 1, 1, 2, 3, ln, ln + 1, rng.randrange(0, 2 * ln + 2)]) for _ in range(2)})
     return dict(vals=vals, err=err, ops=ops, ks=ks, consume=rng.choice(['iter', 'collect', 'drain', 'iter']),
-                seed=rng.randrange(1 << 30))
+                again=rng.random() < 0.3, seed=rng.randrange(1 << 30))
 
 
 # fixed regression / boundary programs that are always run first
@@ -867,6 +903,8 @@ def corpus():
         dict(vals=r, err=None, ops=[['parmap', 'raiseIfMul:3:0', 1, False, True], ['peek', 2]], ks=[3]),
         dict(vals=r, err=None, ops=[['buffer', 1]], ks=[]),
         dict(vals=[], err=[0, 0], ops=[['tail', 1], ['batch', 2]], ks=[0, 1]),
+        dict(vals=[1, 2, 3], err=None, ops=[['accumulate', 'add', None]], ks=[], again=True),
+        dict(vals=r, err=None, ops=[['accumulate', 'max', [3]], ['batch', 2], ['shuffle', 2, [1], [0, 1]]], ks=[], again=True),
     ]
     for c in cs:
         c.setdefault('consume', 'iter')
